@@ -523,6 +523,10 @@ func TestVerif_C01_Pipelining(t *testing.T) {
 		plan := genC01Plan(rt)
 		saveCase("c01", plan)
 		res, results, events, closeOK, pending := c01Run(t, plan)
+		if res.Frozen {
+			c.Inconclusive("virtual-clock-freeze")
+			return
+		}
 		nt, classes := c01Check(c, rt, plan, res, results, events, closeOK, pending)
 		key, _ := json.Marshal(plan)
 		c.Eval(nt, string(key), classes...)
